@@ -404,11 +404,50 @@ let check_torn_commit j (r : nrec) =
       | _, _ -> () in
   go (r.snapii + 1) r.o.o_ents (ldrop r.snapii g)
 
+(* The StartNode bootstrap entries (one term-1 conf-change entry per initial peer, generated locally
+   and identically by every member, indexes 1..boot_len) are not part of the abstract log: the glue
+   checks that every recorded log starts with them and hands the rest, with indexes shifted by
+   boot_len, to the abstract side.  A member that restarts before having persisted them is then
+   simply a node with an empty abstract log. *)
+let boot_len = ref 0
+let boot_log : entry list ref = ref []
+
+let rec drop k l = if k <= 0 then l else match l with [] -> [] | _ :: r -> drop (k - 1) r
+let rec take k l = if k <= 0 then [] else match l with [] -> [] | x :: r -> x :: take (k - 1) r
+let shift i = if i > !boot_len then i - !boot_len else 0
+
+(* configuration monitor (direct check): the recorded prs / learnerPrs of a node must be the result of
+   applying, in log order, the conf-change entries of a prefix of: bootstrap entries ++ its committed log
+   (addNode / addLearner / removeNode are only called for committed entries, in order; a restart takes the
+   configuration of its snapshot, which is such a prefix too) *)
+let conf_apply (v, l) (e : entry) =
+  if int_of_n e.ekind <> 2 then (v, l) else begin
+    let x = int_of_n e.eaux in
+    match int_of_n e.edata with
+    | 0 -> if List.mem x v then (v, l) else (List.sort compare (x :: v), List.filter (fun y -> y <> x) l)
+    | 3 -> if List.mem x v || List.mem x l then (v, l) else (v, List.sort compare (x :: l))
+    | 1 -> (List.filter (fun y -> y <> x) v, List.filter (fun y -> y <> x) l)
+    | _ -> (v, l)
+  end
+let n_conf_checks = ref 0
+let check_conf j (r : nrec) =
+  incr n_conf_checks;
+  let n = node j in
+  let rec take k l = if k <= 0 then [] else match l with [] -> [] | x :: t -> x :: take (k - 1) t in
+  let es = !boot_log @ take (int_ n.commit) n.log in
+  let target = (r.voters_i, r.learners_i) in
+  let rec go c es = c = target || (match es with [] -> false | e :: rest -> go (conf_apply c e) rest) in
+  (* a node started in join mode as a learner knows itself as learner from the start (StartNode isLearner) *)
+  if not (go ([], []) es || go ([], [j]) es) then
+    raise (Reject (Printf.sprintf "node %d: its configuration voters=[%s] learners=[%s] is not what the conf-change entries of any prefix of its committed log produce"
+                     j (String.concat "," (List.map string_of_int r.voters_i)) (String.concat "," (List.map string_of_int r.learners_i))))
+
 let check_match j (r : nrec) what =
   incr n_matches;
   if not (match_node (node j) r.o) then
     raise (Reject (Printf.sprintf "%s: abstract node %d {%s} does not match the recorded node {%s}"
-                     what j (node_str (node j)) (nrec_str r)))
+                     what j (node_str (node j)) (nrec_str r)));
+  check_conf j r
 
 let why_str = function
   | 1 -> "a vote it cast is not covered by its persisted term/vote"
@@ -509,18 +548,6 @@ let check_message j (m : msg) =
 type ev = { seq : int; kind : string; en : int; subs : string list; ex : int;
             mutable nraw : (int * bool * int * int * int * int * int * int * int list * int list * bool * int * entry list) list; mutable nlines : nrec list; mutable slines : msg list; mutable alines : (int * int * int * entry) list;
             mutable panic : string option }
-
-(* The StartNode bootstrap entries (one term-1 conf-change entry per initial peer, generated locally
-   and identically by every member, indexes 1..boot_len) are not part of the abstract log: the glue
-   checks that every recorded log starts with them and hands the rest, with indexes shifted by
-   boot_len, to the abstract side.  A member that restarts before having persisted them is then
-   simply a node with an empty abstract log. *)
-let boot_len = ref 0
-let boot_log : entry list ref = ref []
-
-let rec drop k l = if k <= 0 then l else match l with [] -> [] | _ :: r -> drop (k - 1) r
-let rec take k l = if k <= 0 then [] else match l with [] -> [] | x :: r -> x :: take (k - 1) r
-let shift i = if i > !boot_len then i - !boot_len else 0
 
 let parse_n_raw f =
   match f with
